@@ -266,7 +266,27 @@ def angle3d_stream(ctx, n):
             ctx.disagree("C09:angle3d:planes", f"angle planes {h1} {h2}", cosn, rp[1:3], replay=[desc])
 
 
+def moved_polygon_stream(ctx, n):
+    """dist(point, polygon) for a polygon of space obtained by translation / `+ Point` (the cached supporting plane must follow)"""
+    import geometer as g
+    rng = ctx.rng
+    for k in range(n):
+        w, h = rng.randint(1, 4), rng.randint(1, 4)
+        base = g.Polygon(g.Point(0.0, 0.0, 0.0), g.Point(float(w), 0.0, 0.0), g.Point(float(w), float(h), 0.0), g.Point(0.0, float(h), 0.0))
+        shift = [float(rng.randint(-3, 3)), float(rng.randint(-3, 3)), float(rng.choice([-4, -3, 2, 3, 5]))]
+        moved = call_impl(lambda: g.translation(*shift) * base if k % 2 == 0 else base + g.Point(*shift))
+        hq = float(rng.choice([1, 2, 4]))
+        q = [shift[0] + w / 2, shift[1] + h / 2, shift[2] + hq]                  # straight above the centre of the moved rectangle
+        desc = f"dist(point, moved rectangle {w}x{h}) shift={shift} height={hq}"
+        ctx.case(desc)
+        ctx.count("dist:moved-polygon")
+        r = call_impl(lambda: float(g.dist(g.Point(*q), moved[1]))) if moved[0] == "ok" else moved
+        if r[0] != "ok" or not close(r[1], hq):
+            ctx.disagree("C09:dist:moved-polygon", desc, hq, r[1:3], replay=[desc])
+
+
 def correspondence(ctx):
+    moved_polygon_stream(ctx, ctx.budget(30, 300))
     dist_stream(ctx, ctx.budget(600, 9000))
     dist_collection_stream(ctx, ctx.budget(60, 800))
     angle_stream(ctx, ctx.budget(200, 3000))
